@@ -76,4 +76,41 @@ values: `Sip@0 Dip@16 Sport@32 (Htons) Dport@34 (Htons) L4proto@36`, 3 bytes of 
 def goKey (sip sport dip dport l4 : Nat) : Bytes :=
   beBytes 16 sip ++ beBytes 16 dip ++ beBytes 2 sport ++ beBytes 2 dport ++ [l4 % 256] ++ zeros 3
 
+/-! ## `RetrieveRoutingResult` on the stored bytes -/
+
+/-- the kernel maps as the control plane sees them: raw key bytes ↦ raw value bytes -/
+def connImage (w : World) : List (Bytes × Bytes) := w.conn.map fun p => (encKey p.1, encConn p.2)
+def handoffImage (w : World) : List (Bytes × Bytes) := w.handoff.map fun p => (encKey p.1, encHandoff p.2)
+
+/-- `RetrieveRoutingResult` as the Go code runs it: build the key bytes, look them up in the two
+maps, read the value bytes through the bpf2go struct types -/
+def retrieveGo (conn ho : List (Bytes × Bytes)) (sip sport dip dport l4 : Nat) (userNow : Nat) : Option RResult :=
+  let key := goKey sip sport dip dport l4
+  let embedded : Option RResult :=
+    if l4 = IPPROTO_TCP ∨ l4 = IPPROTO_UDP then
+      match alookup conn key with
+      | some v => if (goDecConn v).hasRouting = 0 then none else some (goDecConn v).result
+      | none => none
+    else none
+  match embedded with
+  | some r => some r
+  | none =>
+    match alookup ho key with
+    | some v => if handoffExpired userNow (goDecHandoff v).lastSeen then none else some (goDecHandoff v).result
+    | none => none
+
+/-- values in range for their C types -/
+def Key.WF (k : Key) : Prop := k.sip < 2 ^ 128 ∧ k.dip < 2 ^ 128 ∧ k.sport < 2 ^ 16 ∧ k.dport < 2 ^ 16 ∧ k.l4 < 256
+
+def ConnState.WF (c : ConnState) : Prop :=
+  c.mark < 2 ^ 32 ∧ c.pid < 2 ^ 32 ∧ c.outbound < 256 ∧ c.must < 256 ∧ c.dscp < 256 ∧ c.hasRouting < 256 ∧
+  c.mac.length = 6 ∧ c.pname.length = 16
+
+def Handoff.WF (x : Handoff) : Prop :=
+  x.lastSeen < 2 ^ 64 ∧ x.result.mark < 2 ^ 32 ∧ x.result.pid < 2 ^ 32 ∧ x.result.outbound < 256 ∧
+  x.result.must < 256 ∧ x.result.dscp < 256 ∧ x.result.mac.length = 6 ∧ x.result.pname.length = 16
+
+def World.WF (w : World) : Prop :=
+  (∀ p ∈ w.conn, p.1.WF ∧ p.2.WF) ∧ (∀ p ∈ w.handoff, p.1.WF ∧ p.2.WF)
+
 end DaeVerif.C03
